@@ -645,6 +645,8 @@ class NumberOrderedForm(Operator):
             ):
                 # Find the operator index in the operators list
                 op = base if base.is_annihilation else base.adjoint()
+                if op not in operators:
+                    raise ValueError(f"Operator {op} not found in operators list")
                 powers = tuple(
                     exp * (One if base.is_annihilation else -One)
                     if op == operator
